@@ -210,7 +210,7 @@ func (pr *printer) class(n Node) { pr.classForm(n, false) }
 
 // classForm prints a chr node; a node with a kid is a class with a subtraction [base-[sub]]
 func (pr *printer) classForm(n Node, force bool) {
-	if !force && len(n.Kids) == 0 && !n.Neg && len(n.Rs) == 1 && n.Rs[0][0] == n.Rs[0][1] {
+	if !force && len(n.Kids) == 0 && n.Cls == "" && !n.Neg && len(n.Rs) == 1 && n.Rs[0][0] == n.Rs[0][1] {
 		pr.sb.WriteString(escChar(n.Rs[0][0], false))
 		return
 	}
@@ -224,6 +224,9 @@ func (pr *printer) classForm(n Node, force bool) {
 			pr.sb.WriteString("-")
 			pr.sb.WriteString(escChar(r[1], true))
 		}
+	}
+	if n.Cls != "" { // a shorthand as a member of the class: [\w...]
+		pr.sb.WriteString(`\` + n.Cls)
 	}
 	if len(n.Kids) > 0 {
 		pr.sb.WriteString("-")
